@@ -117,16 +117,14 @@ pub open spec fn delivered_or_untouched(new: Map<PathV, FileS>, old: Map<PathV, 
     proof { assert(delivery_log(w.log, w0.log, pv(local_dest) + TMP(), pv(local_dest))); }
 //@end
 
-pub struct VErr { _p: () }      // R11: Box<dyn std::error::Error> => opaque error channel
-impl From<std::io::Error> for VErr { #[verifier::external_body] fn from(e: std::io::Error) -> Self { VErr { _p: () } } }
 // C14, per file: what the quick check (plan::needs_transfer, proved in unit `plan`: absent, or size differs, or mtime differs)
 // says about a destination file that was delivered with the source's planned metadata
-pub open spec fn needs(src_size: int, src_mtime: int, dst: Option<FileS>) -> bool {
+pub open spec fn quick_needs(src_size: int, src_mtime: int, dst: Option<FileS>) -> bool {
     dst is None || dst->Some_0.bytes.len() != src_size || dst->Some_0.mtime != src_mtime
 }
 pub proof fn lemma_delivered_is_skipped(src: FileS, dst: FileS, planned_mtime: int)
     requires dst.bytes == src.bytes, planned_mtime >= 0, dst.mtime == clamp0(planned_mtime),
-    ensures !needs(src.bytes.len() as int, planned_mtime, Some(dst)),
+    ensures !quick_needs(src.bytes.len() as int, planned_mtime, Some(dst)),
 { }
 //@extract file=src/bin/copia/dir_sync.rs fn=create_local_dirs
 //@sig /Box<dyn std::error::Error>/ => VErr
@@ -137,6 +135,7 @@ pub proof fn lemma_delivered_is_skipped(src: FileS, dst: FileS, planned_mtime: i
     // creating directories changes no file
     final(w).files == old(w).files,
     old(w).log.len() <= final(w).log.len() && forall|i: int| old(w).log.len() <= i < final(w).log.len() ==> #[trigger] final(w).log[i] is Mkdir,
+    forall|i: int| 0 <= i < old(w).log.len() ==> #[trigger] final(w).log[i] == old(w).log[i],
 //@at before-loop 0
     proof { assert(w.files == w0.files); }
 //@replace? /std::fs::create_dir_all\(((?:[^()]|\([^()]*\))*)\)/ => vfs_create_dir_all(\1, Tracked(w)) #all
@@ -144,4 +143,5 @@ pub proof fn lemma_delivered_is_skipped(src: FileS, dst: FileS, planned_mtime: i
     let ghost w0 = *w;
 //@loop 0 invariant
         w0 == *old(w), w.files == w0.files, w0.log.len() <= w.log.len(), forall|i: int| w0.log.len() <= i < w.log.len() ==> #[trigger] w.log[i] is Mkdir,
+        forall|i: int| 0 <= i < w0.log.len() ==> #[trigger] w.log[i] == w0.log[i],
 //@end
